@@ -362,6 +362,49 @@ fn wait_dec(dec: &crate::hooks::DecState) -> bool {
 }
 
 
+/// Like `wait_dec`, but tells a decoder thread that HANGS from one that is merely slow: `Err` when the thread has not passed a
+/// single hook point (step, wait, end, error) while a reference thread - sleeping 1 ms at a time, as the decoder thread's own
+/// wait loop does - completed 3000 sleeps. The reference thread is a logical clock that slows down with the machine.
+fn wait_dec_or_hang(dec: &crate::hooks::DecState) -> Result<bool, String> {
+	use std::sync::atomic::{AtomicBool, AtomicU64, Ordering};
+	let hits = |d: &crate::hooks::DecState| d.steps.load(Ordering::SeqCst) + d.waits.load(Ordering::SeqCst) + d.ends.load(Ordering::SeqCst) + d.errors.load(Ordering::SeqCst);
+	let ready = |d: &crate::hooks::DecState, w0: u64| d.ends.load(Ordering::SeqCst) > 0 || d.errors.load(Ordering::SeqCst) > 0 || d.waits.load(Ordering::SeqCst) > w0 + 1;
+	let w0 = dec.waits.load(Ordering::SeqCst);
+	let base = hits(dec);
+	let t0 = std::time::Instant::now();
+	while t0.elapsed() < Duration::from_millis(300) {
+		if ready(dec, w0) {
+			return Ok(true);
+		}
+		std::thread::sleep(Duration::from_micros(100));
+	}
+	let quanta = Arc::new(AtomicU64::new(0));
+	let done = Arc::new(AtomicBool::new(false));
+	let (q2, d2) = (quanta.clone(), done.clone());
+	let reference = std::thread::spawn(move || {
+		while !d2.load(Ordering::SeqCst) {
+			std::thread::sleep(Duration::from_millis(1));
+			q2.fetch_add(1, Ordering::SeqCst);
+		}
+	});
+	let res = loop {
+		if ready(dec, w0) {
+			break Ok(true);
+		}
+		if quanta.load(Ordering::SeqCst) >= 3000 && hits(dec) == base {
+			break Err("the decoder thread hangs: it has not reached a single point of its loop (step, wait, end, error) while a reference thread completed 3000 sleeps of 1 ms".to_string());
+		}
+		if t0.elapsed() > Duration::from_secs(12) {
+			break Ok(false);
+		}
+		crate::monitors::bump();
+		std::thread::sleep(Duration::from_micros(300));
+	};
+	done.store(true, Ordering::SeqCst);
+	let _ = reference.join();
+	res
+}
+
 fn region(a: usize, b: usize) -> Region {
 	Region { start: PlaybackPosition::Samples(a), end: EndPosition::Custom(PlaybackPosition::Samples(b)) }
 }
@@ -499,12 +542,17 @@ fn stream_case(bytes: Arc<Vec<u8>>, loaded: &StaticSoundData, spec: &StreamSpec)
 	if let Some((a, b)) = spec.slice {
 		d = d.slice(region(a, b));
 	}
-	d = d.start_position(PlaybackPosition::Samples(spec.start));
+	// (the start position is given in frames or - one case in three - as a time a quarter of a frame past it: rounds to it)
+	d = if spec.start % 3 == 1 { d.start_position(PlaybackPosition::Seconds((spec.start as f64 + 0.25) / sr as f64)) } else { d.start_position(PlaybackPosition::Samples(spec.start)) };
 	if let Some((a, b)) = spec.lp {
 		d = d.loop_region(region(a, b));
 	}
 	let (mut sound, mut h) = d.into_sound().map_err(|e| format!("into_sound failed on a valid file: {}", err_name(&e)))?;
 	let dec = crate::hooks::last_decoder().ok_or("decoder hook not observed")?;
+	// the handle reports the start position from the beginning (a seek_by issued before the first callback is relative to it)
+	if spec.slice.is_none() && spec.start < len && (h.position() * sr as f64 - spec.start as f64).abs() > 1.0 {
+		return Err(format!("before the first callback the handle reports position {} s = frame {:.2}, the start position is frame {}", h.position(), h.position() * sr as f64, spec.start));
+	}
 	let info = MockInfoBuilder::new().build();
 	let dt = 1.0 / sr as f64;
 	let mut buf = vec![Frame::ZERO; spec.chunk];
@@ -780,9 +828,19 @@ fn corrupt_case(r: &mut Rng, stats: &mut XStats) -> Result<(), String> {
 				let mut played: Vec<Frame> = vec![];
 				let mut stopped = false;
 				for _ in 0..(frames.min(1 << 20) / 2048 + 8) {
-					if !wait_dec(&dec) {
-						stats.inconclusive += 1;
-						break;
+					match wait_dec_or_hang(&dec) {
+						Ok(true) => {}
+						Ok(false) => {
+							stats.inconclusive += 1;
+							break;
+						}
+						Err(e) => {
+							// let the thread go if it still can, then report
+							h.stop(Tween { duration: Duration::ZERO, ..Default::default() });
+							sound.on_start_processing();
+							sound.process(&mut buf, 1.0 / sr as f64, &info);
+							return Err(format!("streaming the corrupted file [{}]: {} ({:?}, {} frames)", what, e, spec, n));
+						}
 					}
 					sound.on_start_processing();
 					sound.process(&mut buf, 1.0 / sr as f64, &info);
